@@ -34,7 +34,7 @@ import (
 // Dev is one deviation from the default schedule (everybody awake every round, transactions
 // mined in submission order, nobody crashes).
 type Dev struct {
-	Kind   string `json:"kind"`             // sleep | crash | reorder | absent
+	Kind   string `json:"kind"`             // sleep | crash | reorder | absent | hold (the transaction at position Swap of block Round stays out of blocks for Len rounds)
 	Member int    `json:"member,omitempty"` // sleep, crash
 	Round  int    `json:"round,omitempty"`  // sleep: first missed round; crash: round of the cancellation (call = 0); reorder: block
 	Len    int    `json:"len,omitempty"`    // sleep: rounds missed; crash: rounds until the restart
@@ -232,6 +232,12 @@ func runSchedule(t *testing.T, s Schedule, horizon int, dir string) (res RunResu
 				case "reorder":
 					if r == d.Round {
 						swap = d.Swap
+					}
+				case "hold":
+					if r == d.Round {
+						h.mu.Lock()
+						h.holdNext, h.holdLen = d.Swap, d.Len
+						h.mu.Unlock()
 					}
 				}
 			}
@@ -541,6 +547,8 @@ type tierCfg struct {
 	callCrashNs  []int
 	callStride   int
 	reorderNs    []int
+	holdNs       []int
+	holdLens     []int
 	absentNs     []int
 	repeat       int // repetitions of the default schedule for n >= 4 (uncontrolled map order)
 	twoDevN      int // all two-deviation sleep schedules for this n (0 = none)
@@ -550,10 +558,10 @@ type tierCfg struct {
 func tierOf(name string) tierCfg {
 	if name == "thorough" {
 		return tierCfg{ns: []int{1, 2, 3, 4, 5, 6, 7}, sleepNs: []int{1, 2, 3, 4}, sleepLens: []int{1, 3, 150}, crashNs: []int{1, 2, 3, 4}, crashDelays: []int{0, 2, 150}, crashEvery: 1,
-			callCrashNs: []int{2, 3}, callStride: 3, reorderNs: []int{1, 2, 3}, absentNs: []int{3, 4, 5, 6, 7}, repeat: 16, twoDevN: 2, twoDevStride: 6}
+			callCrashNs: []int{2, 3}, callStride: 3, reorderNs: []int{1, 2, 3}, holdNs: []int{1, 2, 3}, holdLens: []int{1, 3, 130}, absentNs: []int{3, 4, 5, 6, 7}, repeat: 16, twoDevN: 2, twoDevStride: 6}
 	}
 	return tierCfg{ns: []int{1, 2, 3, 4}, sleepNs: []int{1, 2, 3}, sleepLens: []int{1}, longSleepNs: []int{2, 3}, crashNs: []int{1, 2, 3}, crashDelays: []int{0}, crashEvery: 2,
-		callCrashNs: nil, reorderNs: []int{2}, absentNs: []int{3, 4}, repeat: 3}
+		callCrashNs: nil, reorderNs: []int{2}, holdNs: []int{1, 2}, holdLens: []int{2}, absentNs: []int{3, 4}, repeat: 3}
 }
 
 func minorities(n int) [][]int {
@@ -753,6 +761,16 @@ func TestC13(t *testing.T) {
 			for r, k := range def(n).TxPerRound {
 				for sw := 0; sw+1 < k; sw++ {
 					scheds = append(scheds, Schedule{N: n, Devs: []Dev{{Kind: "reorder", Round: r, Swap: sw}}})
+				}
+			}
+		}
+		// a transaction that stays in the pool for a while (or until it expires) instead of being mined at once
+		for _, n := range cfg.holdNs {
+			for r, k := range def(n).TxPerRound {
+				for j := 0; j < k; j++ {
+					for _, l := range cfg.holdLens {
+						scheds = append(scheds, Schedule{N: n, Devs: []Dev{{Kind: "hold", Round: r, Swap: j, Len: l}}})
+					}
 				}
 			}
 		}
